@@ -797,16 +797,21 @@ PROPS = {
     ),
     "C05": dict(
         level="proof", module="Rsdns.Props.C05",
-        technique="Lean 4 theorems (parsers/validator agreement and totality, decoded-name length bound) + round-trip oracle on real code",
-        level_text="Proved for all strings: both parsers accept exactly what check_name_bytes accepts, never panic, and yield the "
-                   "canonical spelling; every decoded name has wire length ≤ 255 and valid labels. The encoder/decoder round-trip "
-                   "and the encoder-vs-parser agreement are decided on the implementation by the `roundtrip` oracle (impl vs spec) "
-                   "and tied to the model by correspondence; their Lean statements are kept in Props/C05.lean as open items.",
-        level_note="PARTIAL proof: encode_decode and the encoder half of parse_agree are not yet theorems (see Props/C05.lean header). "
-                   "Trusted: Lean kernel; model of utils.rs/writer.rs/name.rs/inline_name.rs validated by `text` and `roundtrip` streams.",
+        technique="Lean 4 theorems (parsers = validator = wire encoder on every string; encode→decode returns the canonical spelling; every decoded name is valid and re-parses to itself) + round-trip oracle on real code",
+        level_text="Proved for all strings and all messages: both parsers accept exactly what check_name_bytes accepts, never panic, "
+                   "and yield the canonical spelling (parse_agree); the wire encoder accepts exactly the same strings "
+                   "(encoder_accepts_valid, valid_encodes given room for 255 octets); whatever the encoder writes is at most 255 octets "
+                   "and decodes, with either name type, to the canonical spelling, the decoder stopping right behind it "
+                   "(encode_decode); every decoded name passes the validator and both parsers return it unchanged (decode_valid, "
+                   "decode_reparse). The text→labels splitting loop shared by validator and encoder is proved to be a fold over the "
+                   "dot-separated labels (Lemmas/Encode.lean). On the implementation the `roundtrip` oracle checks the same three "
+                   "statements with an independent encoder.",
+        level_note="Complete for the model. Trusted: Lean kernel; model of utils.rs/writer.rs/name.rs/inline_name.rs validated by the "
+                   "`text` and `roundtrip` streams.",
         streams=[dict(name="roundtrip"), dict(name="text", quick=20000), dict(name="name", quick=10000)],
-        explanation="C05: parse_agree / check_total / decoded_len theorems; oracle: decode→re-parse must succeed with an equal name, "
-                    "encode→decode must return the canonical spelling within 255 octets, encoder and parsers must accept the same strings.",
+        explanation="C05: parse_agree, encoder_accepts_valid, valid_encodes, encode_decode, decode_valid, decode_reparse, check_total, "
+                    "decoded_len; oracle: decode→re-parse must succeed with an equal name, encode→decode must return the canonical "
+                    "spelling within 255 octets, encoder and parsers must accept the same strings.",
     ),
     "C02": dict(
         level="proof", module="Rsdns.Props.C02", modules=["Rsdns.Props.C02", "Rsdns.Props.C02Message"],
@@ -892,15 +897,19 @@ PROPS = {
     ),
     "C11": dict(
         level="proof", module="Rsdns.Props.C11",
-        technique="Lean 4 theorems (serializer never leaves its buffer / never panics, refusal before send, payload clamp) + independent reference encoder as oracle on the real clients' wire bytes",
-        level_text="Proved for all inputs and buffer sizes: QueryWriter never writes outside its buffer and never panics; an unbuildable "
-                   "query is refused before any socket operation; the OPT payload is min(configured, buffer). What is on the wire is "
-                   "decided by an independent reference encoder (tools/props.py: expected_query) against every query the four real "
-                   "clients send over loopback UDP/TCP and against the hook-level encoder with all buffer sizes.",
-        level_note="PARTIAL proof: the byte-exact `query_bytes` statement (Props/C11.lean header) is decided by the oracle + correspondence, "
-                   "not yet a theorem. Trusted: Lean kernel; loopback delivers what was sent; the scripted server's log.",
+        technique="Lean 4 theorems (byte-exact output of the serializer `query_bytes`, it never leaves its buffer / never panics, refusal before send, payload clamp) + independent reference encoder as oracle on the real clients' wire bytes",
+        level_text="Proved for all inputs and buffer sizes: whatever QueryWriter::write produces is, byte for byte, length prefix ++ "
+                   "header(id, flags = RD only, QDCOUNT 1, ARCOUNT 1 iff EDNS) ++ wire form of the asked name ++ QTYPE ++ QCLASS (++ OPT "
+                   "with the given version and payload size) (query_bytes; with C05.encode_decode the name part decodes to the "
+                   "canonical spelling of what was asked); it never writes outside its buffer and never panics; an unbuildable query "
+                   "is refused before any socket operation; the OPT payload is min(configured, buffer). That the four clients put "
+                   "exactly these bytes on the wire is decided by an independent reference encoder (tools/props.py: expected_query) "
+                   "against every query sent over loopback UDP/TCP and against the hook-level encoder with all buffer sizes.",
+        level_note="The serializer is proved; the glue around it in the four clients (prepare_message, which bytes go to which "
+                   "socket) is modelled in Model/Client.lean and tied to the code by the `c11` correspondence. Trusted: Lean kernel; "
+                   "loopback delivers what was sent; the scripted server's log.",
         streams=[dict(name="query", impl_oracle=query_oracle), dict(name="c11", impl_oracle=client_c11_oracle)],
-        explanation="C11: writer_safe, refused_before_send, payload_clamp; streams `query` (hook, buffers of every size, guard pages) and "
+        explanation="C11: query_bytes, writer_safe, refused_before_send, payload_clamp; streams `query` (hook, buffers of every size, guard pages) and "
                     "`c11` (four real clients × UDP/TCP × EDNS/buffer combinations).",
     ),
     "C12": dict(
@@ -989,16 +998,19 @@ PROPS = {
     ),
     "C08": dict(
         level="proof", module="Rsdns.Props.C08",
-        technique="Lean 4 theorems (Name/InlineName readers are the same function; skip succeeds wherever read does, at the same position) + cross-view agreement oracle on the real code",
-        level_text="Proved for all inputs: read_domain_name::<Name> = read_domain_name::<InlineName>; wherever an owned name is read, "
-                   "skipping it succeeds and resumes at the same position. On the implementation, every message is pushed through six "
+        technique="Lean 4 theorems (NameRef::eq = equality of the decoded names, same-offset shortcut included; Name/InlineName readers are the same function; skip succeeds wherever read does, at the same position) + cross-view agreement oracle on the real code",
+        level_text="Proved for all inputs: NameRef::eq on two names of one message — including its same-offset shortcut, whose soundness "
+                   "rests on the uniqueness of the RFC expansion at a position — answers exactly what == answers on the decoded names "
+                   "whenever both decode (nameref_eq_decoded); read_domain_name::<Name> = read_domain_name::<InlineName>; wherever an "
+                   "owned name is read, skipping it succeeds and resumes at the same position. On the implementation, every message is pushed through six "
                    "views (markers, borrowed names, owned names of both types, random access, iterator) and an oracle checks pairwise "
                    "agreement and monotonicity; every pair of names inside a message is compared by NameRef::eq/ne against equality of "
                    "the decoded names.",
-        level_note="PARTIAL proof: at_eq_seq, iter_vs_hd and nameref_eq (same-offset shortcut) are decided by the oracle + correspondence, "
-                   "not yet theorems (see Props/C08.lean header). Comparison involving MessageReader views is limited to ≤ 65535 bytes.",
+        level_note="PARTIAL proof: iter_vs_hd (iterator records = cursor-reader records restricted to defined types/classes) and "
+                   "at_eq_seq as one statement are decided by the oracle + correspondence (see Props/C08.lean header; typed random "
+                   "access is C10.at_closed_form). Comparison involving MessageReader views is limited to ≤ 65535 bytes.",
         streams=[dict(name="views"), dict(name="nameeq", impl_oracle=nameeq_oracle)],
-        explanation="C08: read_kinds_agree, skip_of_read, walk_congr_mode; streams `views` and `nameeq`.",
+        explanation="C08: nameref_eq_decoded, nameRefEqLoop_spec, eqLabels_iff_nameEq, read_kinds_agree, skip_of_read, walk_congr_mode; streams `views` and `nameeq`.",
     ),
     "C10": dict(
         level="proof", module="Rsdns.Props.C10",
